@@ -117,6 +117,18 @@ func libGoroutines() int {
 	return cnt
 }
 
+// censusBound: how long the census waits for goroutines / connections to be gone.  It returns as soon as they are, so a
+// healthy tree never pays for it; it is generous because the machine may be heavily loaded (the decision must not depend
+// on scheduling luck) and shrinks once scenarios have leaked or hung (a broken tree must cost seconds, not minutes).
+func censusBound() time.Duration {
+	if atomic.LoadInt32(&stuckScenarios) > 0 {
+		return 1500 * time.Millisecond
+	}
+	return 6 * time.Second
+}
+
+func censusSteps() int { return int(censusBound() / (2 * time.Millisecond)) }
+
 // settle waits until the number of library goroutines is back to base (or the bound expires) and returns the excess.
 func settle(base int, bound time.Duration) int {
 	deadline := time.Now().Add(bound)
@@ -126,6 +138,7 @@ func settle(base int, bound time.Duration) int {
 			return 0
 		}
 		if time.Now().After(deadline) {
+			noteStuck() // a leak: later scenarios use the short bounds, and after three the run stops
 			return n
 		}
 		time.Sleep(2 * time.Millisecond)
